@@ -29,6 +29,11 @@ type callSpec struct {
 	// Detach: the context passed on is not derived from the one received (built from context.Background(), carrying
 	// the same values): it is still "the context passed on by the predecessor"
 	Detach bool `json:"detached_context,omitempty"`
+	// Ended (client chain): the context passed on is already cancelled (a stage whose own deadline has run out still
+	// hands the call on). The remainder of the chain runs all the same, exactly once; only the transport, innermost, may
+	// refuse to work for such a context: whatever it answers then is normalised to "ended-context" on both sides, and
+	// the message the transport is given is marked so that the scripted server leaves it out of its count.
+	Ended bool `json:"context_already_cancelled,omitempty"`
 }
 type stageProg struct {
 	Calls []callSpec `json:"calls"`
@@ -132,7 +137,11 @@ type model struct {
 	cores  int
 }
 
-func (m *model) run(stage int, msg string, marks []string) modelRes {
+func (m *model) run(stage int, msg string, marks []string, ended ...bool) modelRes {
+	isEnded := len(ended) > 0 && ended[0]
+	if stage == len(m.progs) && isEnded {
+		return modelRes{err: "ended-context"}
+	}
 	if stage == len(m.progs) && m.closed {
 		return modelRes{err: net.ErrClosed.Error()}
 	}
@@ -157,7 +166,7 @@ func (m *model) run(stage int, msg string, marks []string) modelRes {
 		if c.Mark {
 			mk = append(append([]string{}, marks...), fmt.Sprintf("s%dc%d", stage, j))
 		}
-		r := m.run(stage+1, mm, mk)
+		r := m.run(stage+1, mm, mk, c.Ended || (isEnded && !c.Detach))
 		m.events = append(m.events, fmt.Sprintf("back(%d,%d|%s)", stage, j, r))
 		results = append(results, r)
 	}
@@ -196,6 +205,11 @@ func runStage(p stageProg, stage int, ctx context.Context, msg string, call func
 		}
 		if c.Detach {
 			cctx = context.WithValue(context.WithValue(context.Background(), traceKey{}, tr), marksKey{}, marksOf(cctx))
+		}
+		if c.Ended {
+			var cancel context.CancelFunc
+			cctx, cancel = context.WithCancel(cctx)
+			cancel()
 		}
 		r := call(cctx, mm)
 		tr.add("back(%d,%d|%s)", stage, j, r)
@@ -417,6 +431,13 @@ func (s *echoServer) serve(c net.Conn) {
 		if i := strings.IndexByte(id, '>'); i >= 0 {
 			prefix = id[:i]
 		}
+		if strings.Contains(id, ">ended") {
+			// sent under a context that was already over (callSpec.Ended): answered, not counted
+			if err := st.Send(mkResponse("uncounted(" + id + ")")); err != nil {
+				return
+			}
+			continue
+		}
 		s.mu.Lock()
 		n := s.cores[prefix]
 		s.cores[prefix]++
@@ -440,6 +461,11 @@ func runClient(c c19Case) (traces [][]string, finals []modelRes, coreLogs [][]st
 				m := rm
 				if id != msgID(rm) {
 					m = mkRequest(id)
+				}
+				if i == len(c.Stages)-1 && cctx.Err() != nil {
+					// the transport is asked to work under a context that is over: see callSpec.Ended
+					_, _ = next(cctx, mkRequest(id+">ended"))
+					return modelRes{err: "ended-context"}
 				}
 				r, err := next(cctx, m)
 				return kept.keep(func() modelRes { return respID(r, err) })
@@ -635,7 +661,7 @@ func c19NonTrivial(c c19Case) bool {
 func TestC19Chains(t *testing.T) {
 	const name = "TestC19Chains"
 	rec := evid.New("C19", name, "chains of 0..4 stages for the client Roundtrip chain, the server message chain and the server batch-item chain; each stage is a generated program: call the continuation 0..3 times, "+
-		"per call pass on the received or a substituted message and the received, a derived or a detached (not derived from the received one) context, return the last/first result, a substituted result or an error; 1..4 concurrent requests share the chain; "+
+		"per call pass on the received or a substituted message and the received, a derived or a detached (not derived from the received one) context, on the client chain also an already cancelled one (the inner stages run all the same; only what the transport answers under it is left open), return the last/first result, a substituted result or an error; 1..4 concurrent requests share the chain; "+
 		"oracle: a recursive interpreter of the same programs predicts the exact event trace (stage entries with message and context, core executions, results seen) and the caller's result; every result a stage got back is read again when the stage ends and must be unchanged; "+
 		"non-trivial = a non-last stage calls the continuation >= 2 times, or a message is substituted; distinct by case").Attach(t)
 	if rp := evid.LoadReplay(name); rp != nil {
@@ -669,7 +695,8 @@ func TestC19Chains(t *testing.T) {
 			var p stageProg
 			k := rapid.SampledFrom([]int{1, 1, 1, 0, 2, 2, 3}).Draw(rt, "calls")
 			for j := 0; j < k; j++ {
-				p.Calls = append(p.Calls, callSpec{SubMsg: rapid.IntRange(0, 3).Draw(rt, "submsg") == 0, Mark: rapid.Bool().Draw(rt, "mark"), Detach: rapid.IntRange(0, 4).Draw(rt, "detach") == 0})
+				p.Calls = append(p.Calls, callSpec{SubMsg: rapid.IntRange(0, 3).Draw(rt, "submsg") == 0, Mark: rapid.Bool().Draw(rt, "mark"), Detach: rapid.IntRange(0, 4).Draw(rt, "detach") == 0,
+					Ended: c.Chain == "client" && rapid.IntRange(0, 5).Draw(rt, "ended") == 0})
 			}
 			p.Ret = rapid.SampledFrom([]string{"last", "last", "last", "first", "substitute", "error"}).Draw(rt, "ret")
 			c.Stages = append(c.Stages, p)
